@@ -29,9 +29,10 @@ from .c01 import FUNCS
 
 def model(kind, fp_start):
     """A: target. B: operator with the SAME NAME 'o1' but another equation. C: same structure and names as A, other
-    values and other edges. D: different everything (control)."""
+    values and other edges. D: different everything (control). E: A with other values only (the emitted text of E and
+    A is the same, so they meet in every cache that is keyed by generated code)."""
     fp = FP(fp_start)
-    if kind in ('A', 'C'):
+    if kind in ('A', 'C', 'E'):
         ops = {'o1': families.op_two_inputs(fp), 'li': families.op_leaky(fp)}
     elif kind == 'B':
         o1 = families.op_two_inputs(fp)
@@ -56,8 +57,15 @@ def model(kind, fp_start):
     return ModelSpec(f"model{kind}", ops, nodes, edges, note=f"history model {kind}")
 
 
-STEP_KINDS = ['compile', 'compile_keep', 'run', 'run_noclear', 'run_inplace', 'jac', 'clear', 'clear_frontend',
-              'update_var', 'yaml']
+STEP_KINDS = ['compile', 'compile_keep', 'compile_inplace', 'compile_decorated', 'run', 'run_noclear', 'run_inplace',
+              'jac', 'clear', 'clear_frontend', 'update_var', 'yaml']
+
+
+def _halving(f, **kw):
+    # a user decorator (public `decorator` keyword): the decorated function returns half of the vector field
+    def g(*a):
+        return 0.5 * np.asarray(f(*a))
+    return g
 
 
 def first_state(spec):
@@ -73,7 +81,7 @@ def job_fn(job):
     from pyrates import clear_frontend_caches
     hist = job['history']
     target_kind, vec = job['target'], job['vectorize']
-    specs = {k: model(k, 40 * i) for i, k in enumerate('ABCD')}
+    specs = {k: model(k, 40 * i) for i, k in enumerate('ABCDE')}
     live = {}
     kept = []      # (spec, Compiled, value at return time, snapshot of args)
     out = dict(violations=[], inconclusive=[], obligations=[], history=[f"{m}:{a}:{v}" for m, a, v in hist], src='')
@@ -102,6 +110,13 @@ def job_fn(job):
                                                     for a in c.args]), dtype=float, copy=True)
                             snap = [np.array(a, copy=True) if isinstance(a, np.ndarray) else a for a in c.args]
                             kept.append((m, c, val, snap))
+                    elif act == 'compile_inplace':
+                        # in-place translation followed by clear(): the template object stays usable
+                        ct.get_run_func('vf', step_size=0.25, vectorize=v, verbose=False, float_precision='float64',
+                                        in_place=True, clear=True, file_name='pyrates_run')
+                    elif act == 'compile_decorated':
+                        ct.get_run_func('vf', step_size=0.25, vectorize=v, verbose=False, float_precision='float64',
+                                        in_place=False, file_name='pyrates_run', decorator=_halving)
                     elif act in ('run', 'run_noclear', 'run_inplace'):
                         ct.run(simulation_time=0.5, step_size=0.25, outputs={'o': first_state(specs[m])}, vectorize=v,
                                verbose=False, float_precision='float64', clear=(act != 'run_noclear'),
@@ -126,7 +141,9 @@ def job_fn(job):
                     out['history'].append(f"  step {m}:{act} raised {type(e).__name__}: {str(e)[:80]}")
         # ---- the target, built fresh from its spec -----------------------------------------
         spec = specs[target_kind]
-        ct = build_python(spec)
+        # reuse: the template OBJECT the history worked on (only compile_inplace/compile* steps touched it) is compiled
+        # again; otherwise the target is built fresh from its spec
+        ct = live[target_kind] if (job.get('reuse') and target_kind in live) else build_python(spec)
         try:
             c = tv.compile_template(ct, vectorize=vec, in_place=False)
         except tv.CompileError as e:
@@ -196,8 +213,8 @@ def _opcache_job(job):
 def histories(tier, seed):
     rnd = random.Random(seed)
     H = []
-    acts = ['compile', 'compile_keep', 'run', 'run_noclear', 'run_inplace', 'jac', 'clear', 'clear_frontend', 'update_var',
-            'yaml']
+    acts = ['compile', 'compile_keep', 'compile_inplace', 'compile_decorated', 'run', 'run_noclear', 'run_inplace', 'jac',
+            'clear', 'clear_frontend', 'update_var', 'yaml']
     # hand-picked short histories named in the property
     for dec in 'ABCD':
         for act in ('compile', 'compile_keep', 'run', 'run_noclear', 'jac'):
@@ -207,10 +224,17 @@ def histories(tier, seed):
     H.append([('A', 'run_noclear', True), ('A', 'run_noclear', True)])
     H.append([('A', 'compile', True), ('A', 'clear', True), ('B', 'compile', True)])
     H.append([('B', 'run_inplace', True), ('A', 'clear_frontend', True)])
+    for dec in 'ABCDE':
+        for v in (True, False):
+            H.append([(dec, 'compile_decorated', v)])
+            H.append([(dec, 'compile_inplace', v)])
+    H.append([('E', 'compile_decorated', True), ('E', 'compile_decorated', True)])
+    H.append([('A', 'compile_inplace', True), ('A', 'compile_inplace', False)])
+    H.append([('A', 'compile_inplace', False), ('A', 'compile_inplace', True)])
     n = 16 if tier == 'quick' else 400
     for _ in range(n):
         L = rnd.randint(2, 3 if tier == 'quick' else 4)
-        H.append([(rnd.choice('ABCD'), rnd.choice(acts), rnd.random() < 0.6) for _ in range(L)])
+        H.append([(rnd.choice('ABCDE'), rnd.choice(acts), rnd.random() < 0.6) for _ in range(L)])
     return H
 
 
@@ -221,7 +245,7 @@ def run(tier='quick', seed=0, only=None, verbose=False):
         'API histories)', 'OperatorTemplate.apply (CrossHair, symbolic names/equations)'],
         bounds=dict(history_length='1 (all single steps over 4 decoy models) and 2-3 (quick) / 2-4 (thorough) random steps',
                     alphabet=STEP_KINDS, models='A target; B same operator name, other equations; C same structure and '
-                    'names, other values/edges; D unrelated', targets='A and C, vectorize on/off'),
+                    'names, other values/edges; D unrelated; E same emitted text as A, other values', targets='A and C, vectorize on/off'),
         stubs=['numpy library model'],
         assumptions=['reals for floats', 'histories are bounded enumeration/sampling in one process; the solver decides '
                      'function identity per history', 'a history step that raises is recorded and skipped (loud failures '
@@ -231,7 +255,13 @@ def run(tier='quick', seed=0, only=None, verbose=False):
         for tgt in ('A', 'C') if tier == 'thorough' else ('A',):
             for vec in ((True, False) if hi % 2 == 0 or tier == 'thorough' else (True,)):
                 jobs.append(dict(key=f"h{hi}:{'>'.join(f'{m}.{a}.{int(v)}' for m, a, v in h)}|target={tgt}|vec={vec}",
-                                 history=h, target=tgt, vectorize=vec, spec=model(tgt, 40 * 'ABCD'.index(tgt))))
+                                 history=h, target=tgt, vectorize=vec, spec=model(tgt, 40 * 'ABCDE'.index(tgt))))
+                # the same template object again, when the history only translated it (in place + clear, or copies)
+                if any(m == tgt for m, a, _ in h) and all(a in ('compile', 'compile_keep', 'compile_inplace',
+                                                                 'compile_decorated', 'jac', 'yaml', 'update_var',
+                                                                 'clear_frontend', 'run', 'run_noclear')
+                                                          for m, a, _ in h if m == tgt):
+                    jobs.append(dict(jobs[-1], key=jobs[-1]['key'] + '|reuse', reuse=True))
     if only:
         jobs = [j for j in jobs if only in j['key']]
     for job, outc in runner.run_jobs(job_fn, jobs, timeout=600):
